@@ -73,6 +73,14 @@ func main() {
 	}
 }
 
-type readCloser struct{ *strings.Reader }
+type readCloser struct{ r *strings.Reader }
 
 func (readCloser) Close() error { return nil }
+
+func (rc readCloser) Read(p []byte) (int, error) {
+	if rc.r.Len() > 0 {
+		return rc.r.Read(p)
+	}
+	p[0] = 4
+	return 1, nil
+}
